@@ -320,7 +320,8 @@ theorem C06_two_level (procs exporters : List Bool) (inputRO : Bool) (h : pipeli
 
 /-- a same-signal connector advertises mutation whenever it or any pipeline it feeds does (it may
 pass the object it received straight on) -/
-theorem C06_aggregate_cap (base : Bool) (nexts : List Bool) :
+/- (definitional: an unfolding of `aggregateCap`, tied to `connector.go` by the graph differential; not counted as an obligation) -/
+theorem aggregateCap_spec (base : Bool) (nexts : List Bool) :
     aggregateCap base nexts = true ↔ base = true ∨ ∃ n ∈ nexts, n = true := by
   simp [aggregateCap]
 
@@ -420,7 +421,7 @@ theorem C06_end_to_end (pipes : List Pipe) (inputRO : Bool) (i : Nat) (p : Pipe)
 /-- conversely, a pipeline that does not advertise mutation never writes to the object it was handed
 (`C06_two_level`), so sharing that object among such pipelines — read-only when there are several —
 is safe -/
-theorem C06_end_to_end_quiet (pipes : List Pipe) (i : Nat) (p : Pipe) (hp : pipes[i]? = some p) (hc : p.cap = false) (ro : Bool) :
+theorem end_to_end_quiet (pipes : List Pipe) (i : Nat) (p : Pipe) (hp : pipes[i]? = some p) (hc : p.cap = false) (ro : Bool) :
     (∀ b ∈ p.procs, b = false) ∧ ∀ d ∈ deliveries p.exps ro, isMut p.exps d.consumer → ∃ k, d.obj = .clone k := by
   have _ := hp
   exact C06_two_level p.procs p.exps ro hc
@@ -434,7 +435,8 @@ example : objOf (deliveries ([(⟨[true], [false]⟩ : Pipe), ⟨[], [false, fal
 /-- an exporter that batches (merges/splits what it is given after `Consume` returned) always advertises
 mutation, whatever it declared itself — so the fan-out in front of it never hands it an object it
 shares (`C06_exclusive`) -/
-theorem C06_exporter_cap (declared : Option Bool) :
+/- (definitional: case split on `exporterCap`, tied to `base_exporter.go` by the exporter differential; not counted as an obligation) -/
+theorem exporterCap_spec (declared : Option Bool) :
     exporterCap declared true = true ∧ exporterCap declared false = declared.getD false := by
   cases declared <;> simp [exporterCap]
 
